@@ -99,9 +99,10 @@ def variant_api_calls(config):
 
 def analyse(config, tier, opt="O0"):
     ll = irbuild.build(config, units=("ctime_tests.c", "secp256k1.c"), opt=opt)
-    llv = irbuild.build(config, units=(VARIANTS_UNIT, "secp256k1.c"), opt=opt)
-    runs = [("plain", ["--root", "main"], ll), ("randomized-context", ["--root", "main", "--taint-blinding"], ll),
-            ("variants", ["--root", "main"], llv)]
+    runs = [("plain", ["--root", "main"], ll), ("randomized-context", ["--root", "main", "--taint-blinding"], ll)]
+    if opt == "O0":
+        llv = irbuild.build(config, units=(VARIANTS_UNIT, "secp256k1.c"), opt=opt)
+        runs.append(("variants", ["--root", "main"], llv))
     res = {}
     def one(r):
         name, args, mod = r
@@ -169,7 +170,36 @@ def obligations_for(config, tier):
             obs.append(Obligation("R-CT", "R-CT:%s:other#%d" % (mode, i + 1), s["where"].replace(REPO + "/", ""), s["function"],
                                   "no secret-dependent control flow or address outside the API calls either", False,
                                   "%s at %s in %s; origin %s; chain %s" % (s["kind"], s["where"], s["function"], s["origin"], s["chain"]), props=PROPS))
-    st = {"config": config, "apis": len(apis), "positive_control_sinks": nctl,
+    o2_stats = {}
+    if tier == "thorough":
+        # the shipped optimisation level: the same three passes over the -O2 IR (after inlining the API boundaries are gone, so
+        # one obligation per pass; F3 shows up here too and is matched by its own id)
+        res2 = analyse(config, tier, opt="O2")
+        # (the variants harness is not analysed at -O2: there secp256k1_declassify is inlined into a test of ctx->declassify,
+        # and after the harness has randomized the context through the API the engine no longer knows that field's value —
+        # both outcomes are explored and the one without declassification reports sinks that do not exist.  Engine limit, not
+        # a finding; the two ctime_tests.c passes never write the context before the last call and are exact.)
+        res2.pop("variants", None)
+        for mode, d in sorted(res2.items()):
+            if d["source_markers"] < (15 if mode == "variants" else MIN_SOURCES) or d["unknown_externals"]:
+                raise AnalysisBroken("R-CT: -O2 %s pass reached only %d secret markers (externals %s)" % (mode, d["source_markers"], d["unknown_externals"]))
+            known = [s for s in d["sinks"] if mode == "variants" and "secp256k1_ellswift" in s["chain"] + s["function"] and "ellswift_create" in s["chain"] + s["function"]]
+            rest = [s for s in d["sinks"] if s not in known]
+            o2_stats[mode] = {"executions": d["executions"], "source_markers": d["source_markers"], "sinks": len(d["sinks"])}
+            text = "no secret-dependent branch, address, length, division or indirect call in the -O2 IR either (%s pass)" % mode
+            if known:
+                s = known[0]
+                obs.append(Obligation("R-CT", "R-CT:variants:secp256k1_ellswift_create", s["where"].replace(REPO + "/", ""), "secp256k1_ellswift_create",
+                                      text + " under secp256k1_ellswift_create", False, "%s at %s (-O2 IR); %d sinks" % (s["kind"], s["where"].replace(REPO + "/", ""), len(known)), props=PROPS))
+            if rest:
+                s = rest[0]
+                obs.append(Obligation("R-CT", "R-CT:O2:%s" % mode, s["where"].replace(REPO + "/", ""), s["function"], text, False,
+                                      "%s at %s in %s; secret introduced at %s; chain %s; %d sinks in all"
+                                      % (s["kind"], s["where"].replace(REPO + "/", ""), s["function"], s["origin"].replace(REPO + "/", ""), s["chain"].strip(" >"), len(rest)), props=PROPS))
+            else:
+                obs.append(Obligation("R-CT", "R-CT:O2:%s" % mode, "src/ctime_tests.c" if mode != "variants" else "fixtures/ct_variants.c", "main", text, True,
+                                      "no sink in %d abstract executions of the inlined module" % d["executions"], props=PROPS))
+    st = {"config": config, "apis": len(apis), "positive_control_sinks": nctl, "O2": o2_stats,
           "plain": {k: plain[k] for k in ("executions", "instructions", "objects", "select_on_secret", "declassify_calls", "source_markers", "functions_in_module")},
           "randomized": {k: res["randomized-context"][k] for k in ("executions", "instructions", "select_on_secret")},
           "variants": {k: res["variants"][k] for k in ("executions", "instructions", "source_markers", "declassify_calls")}, "variant_apis": len(apis_var),
